@@ -55,7 +55,7 @@ def supervise(argv, prop, tier):
 
 def main(argv):
     if argv and argv[0] == '--setup':
-        rc, out = common.ensure_static(verbose=True)
+        rc, out = common.ensure_static(verbose=True, fresh=True)
         hits = common.forbidden_scan()
         if hits:
             print('forbidden constructs:', hits)
